@@ -57,6 +57,11 @@ func VerifC20Slot() {
 	ctx.Resource = base.NewResourceWrapper("O", base.ResTypeRPC, base.Outbound)
 	ctx.RuleCheckResult = base.NewTokenResultPass()
 	ctx.SetEntry(base.NewSentinelEntry(ctx, ctx.Resource, nil))
+	if rt.Bool("recycled") {
+		// a pooled context: ResetToPass keeps whatever node lists an earlier request left in the result
+		ctx.RuleCheckResult.SetFilterNodes([]string{"stale0", verifAddrs[0]})
+		ctx.RuleCheckResult.SetHalfOpenNodes([]string{"stale1", verifAddrs[0]})
+	}
 	res := DefaultSlot.Check(ctx)
 	rt.Reach("c20.checked")
 	rt.Assert(res != nil && !res.IsBlocked(), "the outlier slot never blocks the request itself")
